@@ -26,12 +26,27 @@ pub struct Engine {
     pub events: Vec<String>,
 }
 
+thread_local! {
+    /// factor by which the monotonic clock of engine processes started from this thread runs fast (<= 1: real clock)
+    pub static FAST_CLOCK: std::cell::Cell<u64> = const { std::cell::Cell::new(0) };
+}
+
 impl Engine {
     pub fn start(sched: Option<&Path>, hold: &[&str]) -> Result<Engine, String> {
         let exe = engine_path();
         let mut cmd = Command::new(&exe);
         cmd.stdin(Stdio::piped()).stdout(Stdio::piped()).stderr(Stdio::piped());
         cmd.env_remove("RCE_VERIF_SCHED");
+        // accelerated monotonic clock for this engine process (LD_PRELOAD shim, see native/fastclock.c)
+        let factor = FAST_CLOCK.with(|f| f.get());
+        if factor > 1 {
+            let shim = super::report::verif_root().join(".target/fastclock.so");
+            if !shim.exists() {
+                return Err("clock shim .target/fastclock.so is missing".into());
+            }
+            cmd.env("LD_PRELOAD", shim);
+            cmd.env("RCE_VERIF_CLOCK_FACTOR", factor.to_string());
+        }
         if let Some(d) = sched {
             let _ = std::fs::remove_dir_all(d);
             std::fs::create_dir_all(d).map_err(|e| e.to_string())?;
